@@ -3,7 +3,7 @@
 Applies the patch in a dedicated scratch worktree of /repo (/tmp/wt_seedtest), runs ./check <id> --repo <worktree>
 for every property (or the given ids), reports which exit 1 (VIOLATION) / 2 (ANALYSIS-ERROR), then resets the worktree."""
 import json, os, subprocess, sys
-WT = "/tmp/wt_seedtest"
+WT = os.environ.get("SEEDTEST_WT", "/tmp/wt_seedtest")
 def sh(*a, **k):
     return subprocess.run(a, capture_output=True, text=True, **k)
 def main():
@@ -21,7 +21,7 @@ def main():
     out = {}
     from concurrent.futures import ThreadPoolExecutor
     def run(i):
-        env = dict(os.environ, VERIF_JOBS="4", VERIF_EVIDENCE_DIR="/tmp/seedtest_evidence")
+        env = dict(os.environ, VERIF_JOBS="4", VERIF_EVIDENCE_DIR=os.environ.get("SEEDTEST_EVIDENCE", "/tmp/seedtest_evidence"))
         ev = "/tmp/seedtest_evidence"
         r = subprocess.run(["/verif/check", i, "--repo", WT], capture_output=True, text=True, cwd="/verif", env=env)
         lines = [l for l in r.stdout.splitlines() if l.startswith(("VIOLATION", "ANALYSIS-ERROR", "  rule="))]
